@@ -441,6 +441,10 @@ http_run(Params *p)
 	nng_http_server_stop(srv);
 	nng_http_server_release(srv);
 	nng_url_free(url);
+	// let the reaper finish with the server and its connections: nng_fini
+	// racing that teardown is a known finding of its own (C03), not this
+	// property's subject
+	sim_quiesce(5000000);
 }
 SCENARIO(c20_http, "C20", NULL, http_run);
 
